@@ -86,6 +86,22 @@ Proof. intros zic c v. eexists. split; [reflexivity|]. split; [reflexivity|]. sp
   - apply (term1_sound K ex sn cs j isr neg Fn Ic Fv F orc ex_add ex_0 jj sn_euler cs_euler isr_0 isr_1 isr_add isr_opp isr_mul isr_inv
              neg_0 neg_1 neg_opp neg_mul neg_inv neg_add gen_forms_ok orc_ok zic c [LInteg v] _ [EvIntegral; EvFunc]); reflexivity.
 Qed.
+(* third return of integral() with a classical factor: Integral(exp(a tau) v(t - tau), (tau, 0, t)) is the convolution of
+   e^{a t} (t >= 0) with the named function; whichever of the two factors comes first in the product, the model is defined,
+   returns c V(s)/(s - a), and that is the LPair transform (convolution theorem) of the denotation *)
+Theorem conv_exp_named_gen : forall zic c a v b,
+  exists X evs,
+    term1 K ex j isr neg Fv F orc zic c [LConvE a v b] = (Some X, evs) /\
+    (forall s, s - a <> 0 -> X s = c * (Fn v s / (s - a))) /\
+    LPair K ex isr neg Fn (Icz K Ic zic) (SScale c (SConv (SReg 1 O a) (SFn v))) (dom1 K ex j isr neg [LConvE a v b]) X.
+Proof. intros zic c a v b. destruct gen_forms_ok as [_ He _ _ _ _ _ _ Hf _ _ Hc _].
+  destruct b; eexists; eexists; (split; [reflexivity|]); (split;
+   [ intros s Hn; cbn beta; rewrite Hc, (He 1 a s Hn), (Hf v 1 0 s (pos_1 K neg neg_1)); unfold spec_func;
+     replace (s * 0 / 1) with (0 : K) by (field; apply one_nz); rewrite ex_0;
+     replace (s / 1) with s by (field; apply one_nz); field; repeat split; try assumption; apply one_nz
+   | eapply (term1_sound K ex sn cs j isr neg Fn Ic Fv F orc ex_add ex_0 jj sn_euler cs_euler isr_0 isr_1 isr_add isr_opp isr_mul isr_inv
+             neg_0 neg_1 neg_opp neg_mul neg_inv neg_add gen_forms_ok orc_ok zic c); reflexivity ]).
+Qed.
 Theorem doit_sound_gen : forall zic e X evs y,
   doit K ex j isr neg Fv F orc zic e = (Some X, evs) -> den K ex j isr neg Fv (divc K (top_const K e) e) = Some y ->
   LPair K ex isr neg Fn (Icz K Ic zic) (SScale (top_const K e) y) (dom K ex j isr neg (divc K (top_const K e) e)) X.
@@ -111,6 +127,7 @@ End Sound.
 Print Assumptions gen_forms_ok.
 Print Assumptions term_sound_gen.
 Print Assumptions integral_returns_gen.
+Print Assumptions conv_exp_named_gen.
 Print Assumptions doit_sound_gen.
 Print Assumptions L_linear_gen.
 Print Assumptions cache_transparent_gen.
